@@ -47,3 +47,4 @@ CFG = dict(
     ],
     timeout=900,
 )
+CFG["rule"] += ' The mux under test registers one more service after the rules are bound (the routes are served from a copied routing state).'
